@@ -328,7 +328,7 @@ func runC02(c *h.Ctx) {
 	// (a) operator x operand x side x trailing chain matrix (reuse the C03 precedence trees through every style)
 	ops := []string{"+", "-", "*", "/", "%", "==", "!=", "<", "<=", ">", ">=", "&&", "||", "starts with"}
 	operands := []string{"$.a", "1", "1.5", "-1", "$v", `"s"`, "(1 + 2)", "(2 * 3)", "(-$.a)", "(+$.b)", "(1 + 2).abs()", "(2 * 3).type()", "(-$.a).floor()", "($.a == 1)", "($.a == 1).type()", "(exists($.a))", "(!($.a == 1))", "(($.a == 1) is unknown)",
-		"($.a == 1 && $.b == 2)", "($.a == 1 || $.b == 2)", `($.s like_regex "a")`, `($.s like_regex "a").type()`, `($.s starts with "a")`, "$.a ? (@ > 1)", "$.a[0 to last]", "$.a.**{1 to 2}", "(1).abs()", "(1.5).floor()", "(-1).abs()", "(- (1)).abs()",
+		"($.a == 1 && $.b == 2)", "($.a == 1 || $.b == 2)", `($.s like_regex "a")`, `($.s like_regex "a").type()`, `($.s starts with "a")`, "$.a ? (@ > 1)", "$.a[0 to last]", "$.a.**{1 to 2}", "(1).abs()", "(1.5).floor()", "(-1).abs()", "(- (1)).abs()", "(-5)[0].abs()", "(-1.5)[*]", "(-2)[last].type()", "(3)[0]", "(-0.5) ? (@ < 0)",
 		"$.a.size()", "$.d.datetime()", "$.n.decimal(5,2)", "null", "true", "last"}
 	idx := 0
 	for _, op := range ops {
@@ -410,6 +410,17 @@ func runC02(c *h.Ctx) {
 		}
 	}
 	c.Sample("codepoint", map[string]string{"path": `$."a\u0007b"`})
+	// (b1) like_regex patterns with characters that mean something to a
+	// formatter, a regex quoter or the path lexer
+	for i, pat := range []string{"100%", "a%%b", "%d", "%s%v", "%", "%!", "%[1]d", "^[0-9]+%$", "\\Q", "\\E(", "a\\Eb", "{", "}", "$", "`", "'", "%q", "\\%", "%%%"} {
+		if !c.Mine(i) {
+			continue
+		}
+		for _, fl := range []string{"", ` flag "q"`, ` flag "i"`, ` flag "iq"`} {
+			try(`$.s like_regex "` + pat + `"` + fl)
+			try(`$[*] ? (@ like_regex "` + pat + `"` + fl + ` && @ starts with "` + strings.ReplaceAll(pat, "\\", "") + `")`)
+		}
+	}
 	// (b2) long flat chains: the source needs no parentheses, the canonical
 	// text nests one pair per operator - and must still be read back
 	for li, n := range []int{60, 130, 200, 300, 600} {
